@@ -1,7 +1,7 @@
 SPECIFICATION Spec
 CONSTANTS
   Mode = "c24"
-  Tier = "small"
+  Tier = "quick"
   RefN = 40
 INVARIANTS RefLawsHold NeverRejects FinalTable Emit
 CHECK_DEADLOCK FALSE
